@@ -283,6 +283,9 @@ class Environment:
         except (LiquidSyntaxError, TemplateInheritanceError, BlockNestingError) as err:
             err.template_name = path
             raise err
+        except RecursionError:
+            # Probably a partial template loaded from deep inside a recursive render.
+            raise
         except Exception as err:  # noqa: BLE001
             raise LiquidError("unexpected liquid parsing error", token=None) from err
         return self.template_class(
